@@ -72,7 +72,14 @@ def dim_eq(a, b):
     if not T.is_sym(a) and not T.is_sym(b):
         return a == b
     if T.is_sym(a) and T.is_sym(b):
-        return a.eq(b) or z3.is_true(z3.simplify(a == b))
+        if a.eq(b) or z3.is_true(z3.simplify(a == b)):
+            return True
+        try:
+            # polynomial identity (sum-of-monomials normal form): (n+1)*(n+1) vs n*n + 2*n + 1
+            d = z3.simplify(T.zi(a) - T.zi(b), som=True)
+            return z3.is_int_value(d) and d.as_long() == 0
+        except Exception:  # noqa: BLE001
+            return False
     return False
 
 
